@@ -729,6 +729,10 @@ fn gen_directed(c: &Ctx, r: &mut Rng, idx: usize, all: &[Store]) -> (Store, Vec<
         match r.below(if isgraph { 3 } else { 4 }) { 0 => q.0 = l[k], 1 => q.1 = l[k], 2 => q.2 = l[k], _ => q.3 = Some(l[k]) }
         stored.push(q);
     }
+    for _ in 0..r.range(1, 2) { // a few more quads made of interned terms only
+        let q: Q4 = (*r.pick(&l), l[1], *r.pick(&l), if isgraph || r.chance(1, 2) { None } else { Some(*r.pick(&l)) });
+        if !stored.contains(&q) { stored.push(q) }
+    }
     if !isgraph && !stored.iter().any(|q| q.3.is_some()) { stored.push((l[0], l[1], last, Some(*r.pick(&l)))) }
     if !stored.iter().any(|q| q.3.is_none() && (q.0 == last || q.1 == last || q.2 == last)) { stored.push((last, l[1], l[0], None)) }
     for q in &stored { ops.push(Op::Insert(*q)) }
@@ -750,7 +754,8 @@ fn gen_directed(c: &Ctx, r: &mut Rng, idx: usize, all: &[Store]) -> (Store, Vec<
     let pos = if qd.0 == last { 4 } else if qd.2 == last { 1 } else { 2 };
     ops.push(Op::Query(gen_qm_shape(c, r, &pal, qd, pos, isgraph)));
     ops.push(Op::Remove(qd));
-    ops.push(Op::Insert((l[0], l[1], last, None)));
+    let again = [(last, l[1], l[0], None), (l[0], l[1], last, None), (last, l[1], last, None), (l[0], l[1], l[0], None), (last, last, last, None)];
+    ops.push(Op::Insert(*again.iter().find(|q| !stored.contains(q)).unwrap_or(&again[0]))); // interned terms only: must work
     ops.push(Op::Insert(qd));
     ops.push(Op::All);
     ops.push(Op::Enum(EK::Subjects));
@@ -783,4 +788,165 @@ fn c_out(o: &Out) -> String {
         Out::Unexpected(_) => "OErr; OErr".into(), // an unexpected error never matches the model: the length differs
     }
 }
-fn main() {}
+
+// ---------- the real 16-bit boundary (not a Coq case) ----------
+fn u16_full(sum: &mut Summary) {
+    let mut fail = |what: String| sum.oracle_failures.push(("u16-full".into(), what));
+    let n = |k: usize| iri(&format!("http://example.org/n{k}"));
+    let p = iri("http://example.org/p");
+    // graph: 1 predicate + 2 * 32767 nodes = 65535 terms, indices 0..=65534
+    {
+        let mut g = sophia_inmem::graph::small::FastGraph::default();
+        let triples = 32767usize;
+        for j in 0..triples {
+            match g.insert(n(2 * j), p.clone(), n(2 * j + 1)) { Ok(true) => {} other => { fail(format!("small::FastGraph: insert #{j} of fresh terms returned {other:?}")); break } }
+        }
+        let last = n(2 * triples - 1); // the term with index 65534
+        let count = g.triples().count();
+        if count != triples { fail(format!("small::FastGraph: {count} triples after {triples} inserts")) }
+        let r = g.insert(last.clone(), p.clone(), n(2 * triples));
+        if r.is_ok() { fail(format!("small::FastGraph: inserting the 65536th term returned {r:?} instead of TermIndexFullError")) }
+        let r = g.insert(n(2 * triples), p.clone(), last.clone());
+        if r.is_ok() { fail(format!("small::FastGraph: inserting the 65536th term (as subject) returned {r:?}")) }
+        let count = g.triples().count();
+        if count != triples { fail(format!("small::FastGraph: {count} triples after the failed inserts, expected {triples}")) }
+        let r = g.insert(last.clone(), p.clone(), n(0));
+        if !matches!(r, Ok(true)) { fail(format!("small::FastGraph: insert of interned terms on a full index returned {r:?}")) }
+        let got: Vec<[ST; 3]> = g.triples_matching([last.clone()], Any, Any).map(|t| { let t = t.unwrap(); [t.s().into_term(), t.p().into_term(), t.o().into_term()] }).collect();
+        if got != vec![[last.clone(), p.clone(), n(0)]] { fail(format!("small::FastGraph: triples_matching([last], Any, Any) = {got:?}")) }
+        let got = g.triples_matching(Any, Any, [last.clone()]).count();
+        if got != 1 { fail(format!("small::FastGraph: triples_matching(Any, Any, [last]) has {got} items, expected 1")) }
+        if !matches!(g.contains(last.clone(), p.clone(), n(0)), Ok(true)) { fail("small::FastGraph: contains(last, p, n0) is not true".into()) }
+        let r = g.remove(last.clone(), p.clone(), n(0));
+        if !matches!(r, Ok(true)) { fail(format!("small::FastGraph: remove returned {r:?}")) }
+        let got = g.triples_matching([last.clone()], Any, Any).count();
+        if got != 0 { fail(format!("small::FastGraph: {got} triples with subject `last` after the removal")) }
+        if g.triples().count() != triples { fail("small::FastGraph: wrong final triple count".into()) }
+    }
+    // dataset: p, n0, n1 (default graph) + n2, g1 (named graph) + 2 * 32765 nodes = 65535 terms; the default graph is encoded as 65535
+    {
+        let mut d = sophia_inmem::dataset::small::LightDataset::default();
+        let g1 = iri("http://example.org/g1");
+        let mut quads = 0usize;
+        let mut ok = true;
+        ok &= matches!(d.insert(n(0), p.clone(), n(1), None::<ST>), Ok(true)); quads += 1;
+        ok &= matches!(d.insert(n(2), p.clone(), n(0), Some(g1.clone())), Ok(true)); quads += 1;
+        let rest = 32765usize;
+        for j in 0..rest {
+            let g = if j % 2 == 0 { None } else { Some(g1.clone()) };
+            ok &= matches!(d.insert(n(3 + 2 * j), p.clone(), n(4 + 2 * j), g), Ok(true)); quads += 1;
+        }
+        if !ok { fail("small::LightDataset: some insert of fresh terms did not return Ok(true)".into()) }
+        let last = n(4 + 2 * (rest - 1)); // index 65534
+        let count = d.quads().count();
+        if count != quads { fail(format!("small::LightDataset: {count} quads after {quads} inserts")) }
+        let fresh = n(4 + 2 * rest);
+        let r = d.insert(last.clone(), p.clone(), fresh.clone(), None::<ST>);
+        if r.is_ok() { fail(format!("small::LightDataset: inserting the 65536th term returned {r:?}")) }
+        let r = d.insert(last.clone(), p.clone(), n(0), Some(fresh.clone()));
+        if r.is_ok() { fail(format!("small::LightDataset: inserting the 65536th term as graph name returned {r:?}")) }
+        let count = d.quads().count();
+        if count != quads { fail(format!("small::LightDataset: {count} quads after the failed inserts, expected {quads}")) }
+        let r1 = d.insert(last.clone(), p.clone(), n(0), None::<ST>);
+        let r2 = d.insert(last.clone(), p.clone(), n(0), Some(g1.clone()));
+        let r3 = d.insert(n(0), p.clone(), n(1), Some(last.clone()));
+        if !matches!((&r1, &r2, &r3), (Ok(true), Ok(true), Ok(true))) { fail(format!("small::LightDataset: inserts of interned terms on a full index returned {r1:?} {r2:?} {r3:?}")) }
+        let spog = |q: Result<Gspo<&ST>, _>| -> Spog<ST> { let q: Gspo<&ST> = q.map_err(|e: sophia_inmem::index::TermIndexFullError| e).unwrap(); ([q.s().clone(), q.p().clone(), q.o().clone()], q.g().cloned()) };
+        let mut got: Vec<Spog<ST>> = d.quads_matching([last.clone()], Any, Any, Any).map(spog).collect();
+        got.sort();
+        let mut exp: Vec<Spog<ST>> = vec![([last.clone(), p.clone(), n(0)], None), ([last.clone(), p.clone(), n(0)], Some(g1.clone()))];
+        exp.sort();
+        if got != exp { fail(format!("small::LightDataset: quads_matching([last], Any, Any, Any) = {got:?}")) }
+        let got: Vec<Spog<ST>> = d.quads_matching([last.clone()], Any, Any, [None::<ST>]).map(spog).collect();
+        if got != vec![([last.clone(), p.clone(), n(0)], None)] { fail(format!("small::LightDataset: quads_matching([last], Any, Any, [default]) = {got:?}")) }
+        let got: Vec<Spog<ST>> = d.quads_matching(Any, Any, Any, [Some(last.clone())]).map(spog).collect();
+        if got != vec![([n(0), p.clone(), n(1)], Some(last.clone()))] { fail(format!("small::LightDataset: quads_matching(Any, Any, Any, [last]) = {got:?}")) }
+        let got = d.quads_matching(Any, Any, Any, [None::<ST>]).count();
+        let exp_default = 1 + (rest + 1) / 2 + 1;
+        if got != exp_default { fail(format!("small::LightDataset: {got} quads in the default graph, expected {exp_default}")) }
+        let r1 = d.remove(last.clone(), p.clone(), n(0), None::<ST>);
+        let r2 = d.remove(last.clone(), p.clone(), n(0), Some(g1.clone()));
+        let r3 = d.remove(n(0), p.clone(), n(1), Some(last.clone()));
+        if !matches!((&r1, &r2, &r3), (Ok(true), Ok(true), Ok(true))) { fail(format!("small::LightDataset: removes returned {r1:?} {r2:?} {r3:?}")) }
+        if d.quads_matching([last.clone()], Any, Any, Any).count() != 0 { fail("small::LightDataset: quads with subject `last` remain after the removal".into()) }
+        if d.quads().count() != quads { fail("small::LightDataset: wrong final quad count".into()) }
+    }
+    sum.extra.push(("u16_full".into(), "true".into()));
+}
+
+fn main() {
+    let a = parse_args();
+    let ctx = Ctx { pool: small_pool() };
+    assert_eq!(ctx.pool.len() as u64, NT);
+    let all = stores();
+    let capped: Vec<usize> = (0..all.len()).filter(|i| all[*i].small_m.is_some()).collect();
+    let uncapped: Vec<usize> = (0..all.len()).filter(|i| all[*i].small_m.is_none()).collect();
+    let mut sum = Summary::default();
+    sum.rule = "case = (store type, history of 1..60 mixed ops: insert/remove/contains/query/all/remove_matching/retain_matching/insert_all/remove_all/term enumerations, \
+with real sophia matchers of every shipped kind, described to Coq by constant()/extension over the 16-class pool) run on the real store from empty; every 10th case is a directed \
+term-index-boundary history on a capacity-limited store; non-trivial = at least one mutation that changed the store AND at least one non-empty query result; \
+distinct = distinct printed case text (store, ops with matcher labels)".into();
+    let mut cases: Vec<(usize, String)> = vec![];
+    let mut seen = HashSet::new();
+    let base = Rng::new(a.seed);
+    let range: Vec<usize> = match a.only { Some(i) => vec![i], None => (0..a.n).collect() };
+    for idx in range {
+        let mut r = base.fork(idx as u64);
+        let (st, ops) = if idx % 10 == 7 {
+            sum.bump("kind:directed-boundary");
+            gen_directed(&ctx, &mut r, idx, &all)
+        } else {
+            sum.bump("kind:random");
+            let st = if r.chance(1, 2) { all[*r.pick(&capped)].clone() } else { all[*r.pick(&uncapped)].clone() };
+            let nops = r.range(1, 60);
+            let pal = palette(&mut r, &st);
+            let mut inserted = vec![];
+            let ops: Vec<Op> = (0..nops).map(|_| gen_op(&ctx, &mut r, &pal, &mut inserted, st.isgraph)).collect();
+            (st, ops)
+        };
+        let outs = run_real(&ctx, &st, &ops, &mut r);
+        let exp = run_oracle(&st, &ops);
+        let text = format!("{} ops=[{}]", st.name, ops.iter().map(|o| op_text(o, st.isgraph)).collect::<Vec<_>>().join("; "));
+        let coq = format!("case_ok the_pool {} {} {} {}", st.config, st.max, coq_list(ops.iter().map(|o| c_op(o, st.isgraph))), coq_list(outs.iter().map(c_out)));
+        if a.only.is_some() { println!("CASE {idx}: {text}\nIMPL   {outs:?}\nORACLE {exp:?}\nCOQ    {coq}"); }
+        if outs != exp {
+            let k = outs.iter().zip(exp.iter()).position(|(x, y)| x != y).unwrap_or(0);
+            sum.oracle_failures.push((idx.to_string(), format!("store={} op#{k} {}: implementation returned {:?}, the oracle gives {:?}; full case: {text}",
+                st.name, ops.get(k).map(|o| op_text(o, st.isgraph)).unwrap_or_default(), outs.get(k), exp.get(k))));
+        }
+        let changed = ops.iter().zip(outs.iter()).any(|(o, x)| match (o, x) {
+            (Op::Insert(_) | Op::Remove(_), Out::Flag(true)) => true,
+            (Op::RemoveMatching(_) | Op::InsertAll(_) | Op::RemoveAll(_), Out::Count(n)) => *n > 0,
+            _ => false,
+        });
+        let nonempty = outs.iter().any(|x| matches!(x, Out::Quads(l) if !l.is_empty()));
+        if seen.insert(text.clone()) && changed && nonempty { sum.distinct_nontrivial += 1; }
+        sum.bump(&format!("store:{}", st.name));
+        sum.bump(&format!("config:{} {}", st.config, if st.small_m.is_some() { "M" } else if st.max == 0 { "-" } else if st.max == 65535 { "u16" } else { "u32" }));
+        if st.small_m.is_some() { sum.bump(if outs.contains(&Out::Err) { "capped:overflowed" } else { "capped:no-overflow" }); }
+        for (o, x) in ops.iter().zip(outs.iter()) {
+            sum.bump(&format!("op:{}", op_name(o)));
+            if *x == Out::Err { sum.bump("out:TermIndexFull") }
+            if let Op::Query(m) | Op::RemoveMatching(m) | Op::RetainMatching(m) = o {
+                let bit = |d: &MD| matches!(d, MD::Const(_)) as usize;
+                let shape = 8 * (matches!(m.g.d, GD::Const(_)) as usize) + 4 * bit(&m.s.d) + 2 * bit(&m.p.d) + bit(&m.o.d);
+                sum.bump(&format!("shape:gspo={shape:04b}"));
+                for t in [&m.s, &m.p, &m.o] { sum.bump(&format!("tmatcher:{}", tmk_kind(&t.m))); }
+                if !st.isgraph { sum.bump(&format!("gmatcher:{}", gmk_kind(&m.g.m))); }
+                if matches!(x, Out::Quads(l) if !l.is_empty()) { sum.bump("query:non-empty") }
+            }
+        }
+        if sum.samples.len() < 3 { sum.samples.push(format!("case {idx}: {text} => {outs:?}")); }
+        cases.push((idx, coq));
+        sum.evaluations += 1;
+    }
+    if a.rest.iter().any(|x| x == "--u16-full") { u16_full(&mut sum); }
+    if a.only.is_none() {
+        let pool_def = format!("From Sophia.C01 Require Import Model.\nDefinition the_pool : pool := {}.", coq_list((1..=NT).map(|i| { let (k, at, tc) = pool_info(i); format!("({i}, ({k}, {}, {}))", c_ids(&at), c_ids(&tc)) })));
+        sum.shards = write_shards(&a.out, &pool_def, &cases, a.shards);
+        std::fs::write(format!("{}/summary.json", a.out), sum.to_json()).unwrap();
+    } else {
+        for (c, d) in &sum.oracle_failures { println!("ORACLE FAILURE {c}: {d}"); }
+    }
+    println!("c01: {} cases, {} distinct non-trivial, {} oracle failures", sum.evaluations, sum.distinct_nontrivial, sum.oracle_failures.len());
+}
